@@ -69,7 +69,9 @@ def gen_qstr(rng, rich=True):
         elif k < 0.88 and rich:
             parts.append(rng.choice(NONASCII))
         elif k < 0.93 and rich:
-            parts.append(rng.choice(["\\", "\n", "\t", "a\\b", "\\\\", "$$", "$Name", "${Name}", "100$", "{0}", "{id}", "%s", "%(x)d", "{{x}}"]))
+            parts.append(rng.choice(["\\", "\n", "\t", "a\\b", "\\\\", "$$", "$Name", "${Name}", "100$", "{0}", "{id}", "%s", "%(x)d", "{{x}}",
+                                     # text that looks like the start of the next argument or command after a line break
+                                     "\ny = a + b", "\n  Weights = [1, 2]", "\n\tB=", "\nRes = Sum(", "\n)", "\n# not a comment"]))
         elif k < 0.96 and rich:
             # characters that str.splitlines() treats as line boundaries but the command-file syntax does not
             parts.append(rng.choice(["\x0c", "\x0b", "\x1c", "\x1d", "\x1e", "\x85", "\u2028", "\u2029", "\r", "\u200b", "\ufeff", "\u3000"]))
